@@ -39,14 +39,15 @@ def tla_set(xs):
     return '{' + ', '.join('"%s"' % x for x in xs) + '}'
 
 
-def consts(insts, maxval, worlds, allowed=(), forced=(), anchors='MCAnchors', maxheal=0):
-    return {'Inst': tla_set(insts), 'MaxVal': maxval, 'MaxHeal': maxheal, 'Allowed': tla_set(allowed), 'Forced': tla_set(forced),
+def consts(insts, maxval, worlds, allowed=(), forced=(), anchors='MCAnchors', maxheal=0, slots=None, same_app=False):
+    return {'Inst': tla_set(insts), 'Slots': tla_set(slots or insts), 'SameApp': 'TRUE' if same_app else 'FALSE',
+            'MaxVal': maxval, 'MaxHeal': maxheal, 'Allowed': tla_set(allowed), 'Forced': tla_set(forced),
             'WorldSet': '<- %s' % worlds, 'AnchorChoice': '<- %s' % anchors}
 
 
 def proj(st):
     insts = sorted(st['inst'])
-    return (tuple((v, tuple(seq(st['wire'][v]))) for v in insts),
+    return (tuple((a, tuple(seq(st['wire'][a]))) for a in sorted(st['wire'])),
             tuple((o['v'], o['p'], o['r']) for o in seq(st['out'])),
             tuple((v, st['inst'][v]['k']) for v in insts))
 
@@ -75,8 +76,8 @@ def report(ctx, devs, bad, reported, what, robj):
 
 class Run:
     """applies stimuli to a Scenario; tracks validations that diverged (the spec records them in `out`)."""
-    def __init__(self, world, insts, kt, pool, cache):
-        self.sc = Scenario(world, insts, kt, pool, cache)
+    def __init__(self, world, insts, kt, pool, cache, slots=None, same_app=False):
+        self.sc = Scenario(world, insts, kt, pool, cache, slots=slots, same_app=same_app)
         self.diverged = []
 
     def apply(self, act, args):
@@ -86,7 +87,7 @@ class Run:
         elif act == 'Validate':
             sc.validate(args[0], args[1])
         elif act == 'FetchReply':
-            sc.fetch_reply(args[0], args[1])
+            sc.fetch_reply(args[0], args[1], args[2])
         elif act == 'Heal':
             sc.heal(args[0])
         else:
@@ -107,7 +108,9 @@ def walk(ctx, g, w, init, labels, kt, pool, cache, tag, learn=None):
     world = world_py(g.state[init]['W'])
     world['kt'] = kt if g.state[init]['W']['kt'] != 'ed' else 'ed'
     insts = sorted(g.state[init]['inst'])
-    run = Run(world, insts, world['kt'], pool, cache)
+    slots = sorted(g.state[init]['val'])
+    same_app = sorted(g.state[init]['wire']) == ['app']
+    run = Run(world, insts, world['kt'], pool, cache, slots=slots, same_app=same_app)
     reported = set()
     done = []
     try:
@@ -117,7 +120,7 @@ def walk(ctx, g, w, init, labels, kt, pool, cache, tag, learn=None):
                 break
             run.apply(act, args)
             done.append([act] + list(args))
-            robj = {'kind': 'path', 'world': world, 'insts': insts, 'labels': done}
+            robj = {'kind': 'path', 'world': world, 'insts': insts, 'slots': slots, 'same_app': same_app, 'labels': done}
             obs = run.obs()
             if run.sc.errors:
                 ctx.violation('C14/lvs_validator/executor-error', run.sc.errors[0], robj)
@@ -153,7 +156,7 @@ def walk(ctx, g, w, init, labels, kt, pool, cache, tag, learn=None):
         bg = [str(c.get('exception') or c.get('message')) for c in run.sc.sess.loop.errors]
         if bg:
             ctx.violation('C14/lvs_validator/background-error', 'loop exception handler: %s' % bg[0],
-                          {'kind': 'path', 'world': world, 'insts': insts, 'labels': done})
+                          {'kind': 'path', 'world': world, 'insts': insts, 'slots': slots, 'same_app': same_app, 'labels': done})
     finally:
         run.close()
     return len(done)
@@ -297,10 +300,14 @@ def random_world(rng):
             'kt': 'ec', 'sch': sch}
 
 
-def record(world, rng, pool, kt):
+SLOTS6 = ['v1', 'v1b', 'v2', 'v2b', 'v3', 'v4']
+
+
+def record(world, rng, pool, kt, same_app=False):
+    """4 instances (on 4 applications, or all on one); v1 and v2 may run two validations at once"""
     world = dict(world)
     world['kt'] = kt
-    run = Run(world, INSTS4, kt, pool, None)
+    run = Run(world, INSTS4, kt, pool, None, slots=SLOTS6, same_app=same_app)
     sc = run.sc
     ev = []
     try:
@@ -311,17 +318,17 @@ def record(world, rng, pool, kt):
             ev[-1]['post'] = post_of(run)
         nval = 0
         heals = 0
-        dead = set()
         for _ in range(80):
-            fetching = [v for v in INSTS4 if sc.pending.get(v) and sc.task[v] is not None and v not in dead]
-            idle = [v for v in INSTS4 if sc.status[v] == 'ok' and sc.task[v] is None and v not in dead]
+            waiting = sc.waiting()
+            free = [s for v in INSTS4 if sc.status[v] == 'ok' and v not in sc.dead for s in [sc.free_slot(v)] if s is not None]
+            busy = any(t is not None for t in sc.task.values())
             choices = []
             broken = sorted(n for n, c in world['certs'].items() if c['kl'] != n and sc.serv[n] in ('nack', 'timeout', 'absent'))
-            if broken and heals < 3 and not dead and all(sc.task[v] is None for v in INSTS4) and rng.random() < 0.15:
+            if broken and heals < 3 and not sc.dead and not busy and rng.random() < 0.15:
                 choices += ['Heal']
-            if idle and nval < 10:
+            if free and nval < 10:
                 choices += ['Validate'] * 2
-            if fetching:
+            if waiting:
                 choices += ['FetchReply'] * 3
             if not choices:
                 break
@@ -332,29 +339,28 @@ def record(world, rng, pool, kt):
                 heals += 1
                 ev.append({'a': 'Heal', 'x': n})
             elif a == 'Validate':
-                v = rng.choice(idle)
+                s = rng.choice(free)
                 p = 'P%d' % rng.randint(1, 10)
                 if p in ('P1', 'P2') and 'P1r' in world['pkts'] and rng.random() < 0.5:
                     p = 'P1' if rng.random() < 0.5 else 'P1r'
-                run.apply('Validate', [v, p])
+                run.apply('Validate', [s, p])
                 nval += 1
-                ev.append({'a': 'Validate', 'v': v, 'p': p})
+                ev.append({'a': 'Validate', 's': s, 'p': p})
             else:
-                v = rng.choice(fetching)
-                kind = sc.serv_of(v)
+                app, n = rng.choice(waiting)
+                kind = sc.serv_of(n)
                 if kind in ('timeout', 'absent'):
-                    # bound of the spec: the lifetime passes only when the world answers none of the waiting instances
-                    if any(sc.serv_of(u) not in ('timeout', 'absent') for u in fetching):
+                    # bound of the spec: the lifetime passes only when the world answers none of the waiting validations
+                    if any(sc.serv_of(m) not in ('timeout', 'absent') for _, m in waiting):
                         continue
-                run.apply('FetchReply', [v, kind])
-                ev.append({'a': 'FetchReply', 'v': v, 'kind': kind})
+                run.apply('FetchReply', [app, n, kind])
+                ev.append({'a': 'FetchReply', 'app': app, 'n': n, 'kind': kind})
             ev[-1]['post'] = post_of(run)
-            dead |= sc.dead
         errs = list(sc.errors)
         bg = [str(c.get('exception') or c.get('message')) for c in sc.sess.loop.errors]
     finally:
         run.close()
-    return {'world': world, 'ev': ev}, errs, bg
+    return {'world': world, 'same_app': same_app, 'ev': ev}, errs, bg
 
 
 def post_of(run):
@@ -364,12 +370,24 @@ def post_of(run):
 
 
 def judge(ctx, recs, tag, forced):
+    """the traces of applications-per-instance and of one shared application are judged in two TLC runs (SameApp is a constant)"""
+    rej = []
+    for same_app in (False, True):
+        idx = [i for i, r in enumerate(recs) if bool(r.get('same_app')) == same_app]
+        if idx:
+            for i, info in judge_batch(ctx, [recs[i] for i in idx], '%s-%d' % (tag, same_app), forced, same_app):
+                rej.append((idx[i - 1] + 1, info))
+    return rej
+
+
+def judge_batch(ctx, recs, tag, forced, same_app):
     tf = os.path.join(tlc.BUILD, 'c14-traces-%s-%s.ndjson' % (tag, ctx.tier))
     with open(tf, 'w') as f:
         for r in recs:
             f.write(json.dumps(r) + '\n')
-    cfgp = os.path.join(tlc.BUILD, 'TrustChainTrace.cfg')
-    tlc.write_cfg(cfgp, spec='TSpec', constants=consts(INSTS4, 10, 'W2', forced[1], forced[0], anchors='AnyAnchor', maxheal=3),
+    cfgp = os.path.join(tlc.BUILD, 'TrustChainTrace_%d.cfg' % same_app)
+    tlc.write_cfg(cfgp, spec='TSpec', constants=consts(INSTS4, 10, 'W2', forced[1], forced[0], anchors='AnyAnchor', maxheal=3,
+                                                       slots=SLOTS6, same_app=same_app),
                   invariants=['TypeOK'], constraints=['Mark'], postcondition='Post')
     r, rejected = tlc.validate_traces('TrustChainTrace', cfgp, tf, tag='c14tr')
     ctx.add_tlc('TrustChainTrace (%d traces)' % len(recs), r)
@@ -440,6 +458,11 @@ def stage_a(ctx):
                 INVS, [], True, True))
     # schemas with two roots of trust: an anchor matching only one of them is refused, one matching both is accepted
     big.append(('two roots of trust', consts(INSTS2, 1, 'W2R', anchors='MCAnchors2'), INVS, [], False, False))
+    # overlapping validations on one instance / two instances on one application
+    big.append(('overlap on one instance, %d validations' % ctx.pick(2, 3),
+                consts(['v1'], ctx.pick(2, 3), ctx.pick('WOrd', 'W3'), anchors='MCAnchorsGood', slots=['v1', 'v1b']), INVS, [], False, True))
+    big.append(('two instances on one application, 2 validations',
+                consts(INSTS2, 2, ctx.pick('WOrd', 'W3'), anchors='MCAnchorsGood', same_app=True), INVS, [], False, True))
     # termination (liveness) on a smaller configuration
     big.append(('liveness %s, 2 validations' % ctx.pick('selected worlds', 'depth<=3'), consts(INSTS2, 2, ctx.pick('WOrd', 'W3'), anchors='MCAnchorsGood'),
                 ['TypeOK'], ['Terminates'], False, True))
@@ -468,10 +491,12 @@ def stage_a(ctx):
                     raise tlc.MachineryError('vacuous: action %s never taken' % a)
     small = []
     for wname in ('W_AcceptDeep', 'W_CacheHit', 'W_Refused', 'W_RejectOtherAnchor', 'W_TwoInFlight', 'W_HealedAccept',
-                  'W_TwoRootsAccept', 'W_TwoRootsRefuse'):
+                  'W_TwoRootsAccept', 'W_TwoRootsRefuse', 'W_SameInstanceTwice'):
         wp = os.path.join(tlc.BUILD, 'TrustChain_w_%s.cfg' % wname)
         tlc.write_cfg(wp, constants=consts(INSTS2, 2, 'WHeal', anchors='MCAnchorsGood', maxheal=1) if wname == 'W_HealedAccept' else
-                      consts(INSTS2, 1, 'W2R', anchors='MCAnchors2') if wname.startswith('W_TwoRoots') else consts(INSTS2, 2, 'W3'),
+                      consts(INSTS2, 1, 'W2R', anchors='MCAnchors2') if wname.startswith('W_TwoRoots') else
+                      consts(['v1'], 2, 'WClean', anchors='MCAnchorsGood', slots=['v1', 'v1b']) if wname == 'W_SameInstanceTwice' else
+                      consts(INSTS2, 2, 'W3'),
                       invariants=[wname])
         small.append(('witness', wname, wp))
     for d, worlds in (('SharedCache', 'WClean'), ('LoopRefetch', 'WLoop'), ('Ed25519Unsupported', 'WEd')):
@@ -551,6 +576,11 @@ def run(ctx):
             ('history2', consts(INSTS2, 2, 'WTwin', unk, has, anchors='MCAnchorsGood'), ['ec'], ctx.pick(100, 3000)),
             # schemas with two roots of trust: anchors matching one root only / both
             ('roots', consts(INSTS2, 1, 'W2R', unk, has, anchors='MCAnchors2'), ['ec'], ctx.pick(40, 400)),
+            # two validations in progress at once on ONE instance (chains that share / do not share certificates,
+            # fetches answered in every order)
+            ('overlap', consts(['v1'], 2, 'WOrd', unk, has, anchors='MCAnchorsGood', slots=['v1', 'v1b']), ['ec'], ctx.pick(150, 4000)),
+            # two validator instances (anchors RA / RB) built on ONE application
+            ('oneapp', consts(INSTS2, 2, 'WOrd', unk, has, anchors='MCAnchorsGood', same_app=True), ['ec'], ctx.pick(150, 4000)),
             ('ed25519', consts(INSTS2, 2, 'WEd', unk, has, anchors='MCAnchorsGood'), ['ed'], ctx.pick(30, 400))], pool, cache)
         ctx.note('stage B wall %.0fs (incl. learning)' % (time.time() - t1))
     t2 = time.time()
@@ -560,7 +590,7 @@ def run(ctx):
         for i in range(n):
             world = random_world(ctx.rng)
             kt = 'rsa' if i % 25 == 7 else 'ec'
-            rec, errs, bg = record(world, ctx.rng, pool, kt)
+            rec, errs, bg = record(world, ctx.rng, pool, kt, same_app=(i % 3 == 2))
             if errs:
                 ctx.violation('C14/lvs_validator/executor-error', errs[0], {'kind': 'trace', 'rec': rec})
             for o in rec['ev'][-1]['post']['out']:
@@ -573,9 +603,9 @@ def run(ctx):
             recs.append(rec)
             acts = [e['a'] for e in rec['ev']]
             if acts.count('Validate') >= 3 and acts.count('FetchReply') >= 2:
-                ctx.nt(['C', rec['world']['certs'], rec['world']['pkts'], [[e['a'], e.get('v'), e.get('p', e.get('kind'))] for e in rec['ev']]])
+                ctx.nt(['C', rec['world']['certs'], rec['world']['pkts'], [[e['a'], e.get('v', e.get('s', e.get('app'))), e.get('p', e.get('n'))] for e in rec['ev']]])
         ctx.sample({'kind': 'C-trace', 'certs': recs[0]['world']['certs'],
-                    'events': [[e['a'], e.get('v'), e.get('p', e.get('kind', e.get('x')))] for e in recs[0]['ev']][:16]}, limit=6)
+                    'events': [[e['a'], e.get('v', e.get('s', e.get('app'))), e.get('p', e.get('n', e.get('x')))] for e in recs[0]['ev']][:16]}, limit=6)
         judge(ctx, recs, 'c', forced)
         ctx.traces += len(recs)
         ctx.evaluations += sum(len(r['ev']) for r in recs)
@@ -591,7 +621,7 @@ def replay(ctx, path):
         obj = json.load(f)
     pool = KeyPool()
     if obj.get('kind') == 'path':
-        run_ = Run(obj['world'], obj['insts'], obj['world']['kt'], pool, None)
+        run_ = Run(obj['world'], obj['insts'], obj['world']['kt'], pool, None, slots=obj.get('slots'), same_app=obj.get('same_app', False))
         try:
             for lab in obj['labels']:
                 run_.apply(lab[0], lab[1:])
